@@ -648,11 +648,8 @@ func extractSessionCompositeKey(data any, keys []string) string {
 	if m, ok := data.(map[string]any); ok {
 		parts := make([]string, 0, len(keys))
 		for _, k := range keys {
-			if val, exists := m[k]; exists {
-				parts = append(parts, cast.ToString(val))
-			} else {
-				parts = append(parts, "")
-			}
+			// Escaped so that values containing "|" and NULL vs "" never share a key.
+			parts = append(parts, cast.GroupKeyPart(m[k], '|'))
 		}
 		return strings.Join(parts, "|")
 	}
@@ -665,22 +662,22 @@ func extractSessionCompositeKey(data any, keys []string) string {
 
 	parts := make([]string, 0, len(keys))
 	for _, k := range keys {
-		var part string
+		var val any
 		switch v.Kind() {
 		case reflect.Map:
 			if v.Type().Key().Kind() == reflect.String {
 				mv := v.MapIndex(reflect.ValueOf(k))
 				if mv.IsValid() {
-					part = cast.ToString(mv.Interface())
+					val = mv.Interface()
 				}
 			}
 		case reflect.Struct:
 			f := v.FieldByName(k)
 			if f.IsValid() {
-				part = cast.ToString(f.Interface())
+				val = f.Interface()
 			}
 		}
-		parts = append(parts, part)
+		parts = append(parts, cast.GroupKeyPart(val, '|'))
 	}
 	return strings.Join(parts, "|")
 }
